@@ -63,7 +63,12 @@ def run(replay=None):
             if any(not p.startswith("r-x") for p in r["perms"]):
                 ck.impl_violation("page-left-not-rx", "after WriteTo(off=%d, len=%d) page permissions are %s" % (r["off"], r["len"], r["perms"]), r)
         elif k == "tiny":
-            if r["refused"] != (r["size"] <= 13):
+            if r.get("entry", "plain") != "plain":
+                # the extent scan cannot decode the entry: whatever it reports below 13 bytes must lead to a refusal
+                if not r["refused"] and r["funcsize"] < 13:
+                    ck.impl_violation("short-function-accepted", "synthetic function whose entry (%s) the decoder does not know, scanned size %d: the patch was accepted and changed bytes [%s,%s]" % (
+                        r["entry"], r["funcsize"], r.get("changed_lo"), r.get("changed_hi")), r)
+            elif r["refused"] != (r["size"] <= 13):
                 ck.impl_violation("short-function-" + ("accepted" if not r["refused"] else "refused-wrongly"),
                                   "synthetic function of %d bytes (entry %d bytes before a page end): refused=%s, scanned size %d" % (
                                       r["size"], r["near_page_end"], r["refused"], r["funcsize"]), r)
